@@ -420,3 +420,6 @@ func DetBytes(seed uint64, n int) []byte {
 	}
 	return out
 }
+
+// NewDebugRun returns a Run that is not attached to a rapid check (ad-hoc debugging tests only): every choice is 0.
+func NewDebugRun() *Run { return &Run{faults: map[string]int{}, probes: map[string]int{}} }
